@@ -15,4 +15,6 @@ R22 == (c1 :> 2) @@ (c2 :> 2)
 R21 == (c1 :> 2) @@ (c2 :> 1)
 R2 == (c1 :> 2)
 R3 == (c1 :> 3)
+S3 == (p1 :> 3)
+S2 == (p1 :> 2)
 ====
